@@ -1,9 +1,12 @@
 (* Dispatcher from property number to the correspondence entry point of its model. *)
 From Coq Require Import List ZArith.
-From GP Require Import Base.Val Model.Secure.
+From GP Require Import Base.Val Base.GoStrings Model.Secure Model.Negotiate.
 
 Definition check_prop (p : Z) (inp obs : V) : verdict :=
   match p with
   | 13%Z => check_secure inp obs
+  | 2%Z => check_negotiate inp obs
+  | 102%Z => check_clientver inp obs
+  | 100%Z => check_gostrings inp obs
   | _ => bad_case
   end.
